@@ -220,7 +220,19 @@ def corrupt_trace(src, dst, mode, rng, key=None):
     idx = [i for i, ln in enumerate(lines) if '"RESET"' not in ln]
     if mode == "drop":
         # Drop an event that the specification cannot skip: prefer state-changing ones.
-        cands = [i for i in idx if key is None or f'"l":"{key}"' in lines[i]]
+        cands = []
+        for i in idx:
+            if key is not None and f'"l":"{key}"' not in lines[i]:
+                continue
+            # only events that the same thread follows up within the same run: dropping the last
+            # event of a thread leaves a valid (shorter) behaviour
+            t = json.loads(lines[i]).get("t")
+            j = i + 1
+            while j < len(lines) and '"RESET"' not in lines[j]:
+                if json.loads(lines[j]).get("t") == t:
+                    cands.append(i)
+                    break
+                j += 1
         i = cands[rng.randrange(len(cands))]
         del lines[i]
         what = f"dropped record {i + 1}"
